@@ -61,7 +61,7 @@ func decodeOneRegisterAndOneExtendedWidthImmediate(instructionCode []byte, pc Pr
 
 // A.5.4
 func decodeTwoImmediates(instructionCode []byte, pc ProgramCounter, skipLength ProgramCounter) (uint64, uint64, error) {
-	lX := ProgramCounter(min(4, uint8(zetaByte(instructionCode, pc+1))))
+	lX := ProgramCounter(min(4, uint8(zetaByte(instructionCode, pc+1))%8))
 
 	decodedVX, err := utils.DeserializeFixedLength(zetaBytes(instructionCode, pc+2, lX), types.U64(lX))
 	if err != nil {
@@ -118,7 +118,7 @@ func decodeOneRegisterAndOneImmediate(instructionCode []byte, pc ProgramCounter,
 // A.5.7
 func decodeOneRegisterAndTwoImmediates(instructionCode []byte, pc ProgramCounter, skipLength ProgramCounter) (int8, uint64, uint64, error) {
 	rA := int8(min(12, zetaByte(instructionCode, pc+1)%16))
-	lX := min(4, ProgramCounter(uint8((zetaByte(instructionCode, pc+1) >> 4))))
+	lX := min(4, ProgramCounter(uint8((zetaByte(instructionCode, pc+1)>>4)%8)))
 	pcMargin := pc + 2 + lX
 	decodedVX, err := utils.DeserializeFixedLength(zetaBytes(instructionCode, pc+2, lX), types.U64(lX))
 	if err != nil {
